@@ -95,7 +95,11 @@ func (l Layout) annotation(n *SNode, indent string) string {
 				}
 				name = `"` + name + `"`
 			}
-			body.WriteString(name + l.Pad + ":" + " " + l.Pad + r.Val)
+			val := r.Val
+			if l.QuoteNames {
+				val = quoteInnerNames(val, l.EscNames)
+			}
+			body.WriteString(name + l.Pad + ":" + " " + l.Pad + val)
 		}
 		body.WriteString(close)
 	}
@@ -109,6 +113,52 @@ func (l Layout) annotation(n *SNode, indent string) string {
 		return "// " + l.Pad + body.String()
 	}
 	return "/* " + l.Pad + body.String() + " " + l.Pad + "*/"
+}
+
+// quoteInnerNames puts the bare names inside a rule value (the keys of the rule-sets
+// of an `or` list) in quotes, like the names of the annotation itself.
+func quoteInnerNames(v string, esc bool) string {
+	var b strings.Builder
+	for i := 0; i < len(v); {
+		c := v[i]
+		switch {
+		case c == '"':
+			j := i + 1
+			for j < len(v) && v[j] != '"' {
+				if v[j] == '\\' {
+					j++
+				}
+				j++
+			}
+			if j < len(v) {
+				j++
+			}
+			b.WriteString(v[i:j])
+			i = j
+		case c >= 'a' && c <= 'z' || c >= 'A' && c <= 'Z':
+			j := i
+			for j < len(v) && (v[j] >= 'a' && v[j] <= 'z' || v[j] >= 'A' && v[j] <= 'Z') {
+				j++
+			}
+			k := j
+			for k < len(v) && (v[k] == ' ' || v[k] == '\t') {
+				k++
+			}
+			name := v[i:j]
+			if k < len(v) && v[k] == ':' {
+				if esc {
+					name = name[:len(name)-1] + fmt.Sprintf("\\u%04x", name[len(name)-1])
+				}
+				name = `"` + name + `"`
+			}
+			b.WriteString(name)
+			i = j
+		default:
+			b.WriteByte(c)
+			i++
+		}
+	}
+	return b.String()
 }
 
 func (l Layout) padOr(def string) string {
